@@ -185,11 +185,13 @@ func init() {
 			{Fn: "H_history", Params: k(1), Tier: "quick", Reach: []string{"end"}},
 			{Fn: "H_history", Params: k(2), Tier: "quick", Reach: []string{"end"}},
 			{Fn: "H_history", Params: k(3), Tier: "thorough", Reach: []string{"end"}},
+			{Fn: "H_script", Fuel: 60_000_000, Tier: "quick", Reach: []string{"end"}},
+			{Fn: "H_base_code", Fuel: 60_000_000, Tier: "quick", Reach: []string{"end"}},
 			{Fn: "H_autoload", Params: k(1), Fuel: 60_000_000, Tier: "quick", Reach: []string{"end"}},
 			{Fn: "H_autoload", Params: k(2), Fuel: 60_000_000, Tier: "thorough", Reach: []string{"end"}},
 		},
-		Rule:    rule + "; every history of k operations (op in {AddClass, AddFunc, AddInterface, GetClass, GetFunc, GetInterface}) x (VM in {base, temp1, temp2}) x (name in {a, A, b}: a case-fold collision and a distinct name); after each step a relational check compares what every other VM resolves for every pool name with what it resolved before the step (no name-matching model needed), and everything the base resolves must be resolvable through each temporary VM; H_autoload (virtual file system with a class file and an interface file below a registered namespace): k load steps (GetOrLoadClass, LoadPkg, GetOrLoadInterface, GetClass, GetInterface on any VM) followed by a probe on a temporary VM must give the probe the same answer as the history without the steps of the other temporary VM (non-interference). Finite enumeration through the engine",
-		Outside: []string{"histories longer than 3, more than 2 temporary VMs, pools larger than 3 names", "instantiate/call/discard operations; autoload histories longer than 2 steps, spl autoload callbacks, include/require"},
+		Rule:    rule + "; every history of k operations (op in {AddClass, AddFunc, AddInterface, GetClass, GetFunc, GetInterface}) x (VM in {base, temp1, temp2}) x (name in {a, A, b}: a case-fold collision and a distinct name); after each step a relational check compares what every other VM resolves for every pool name with what it resolved before the step (no name-matching model needed), and everything the base resolves must be resolvable through each temporary VM; H_autoload (virtual file system with a class file and an interface file below a registered namespace): k load steps (GetOrLoadClass, LoadPkg, GetOrLoadInterface, GetClass, GetInterface on any VM) followed by a probe on a temporary VM must give the probe the same answer as the history without the steps of the other temporary VM (non-interference); H_script: a request script on a temporary VM that declares a class / function / interface, includes a file (virtual file system) or evals code, with or without the same script having run on another temporary VM before: base, other and later temporary VMs resolve what they resolved before; H_base_code: a function defined on the base VM that instantiates / calls / statically calls a name only the requests define gives each of two successive requests its own definition. Finite enumeration through the engine",
+		Outside: []string{"histories longer than 3, more than 2 temporary VMs, pools larger than 3 names", "discard operations; autoload histories longer than 2 steps, spl autoload callbacks", "constants (shared with the base by design), class_alias, closures bound across requests"},
 	})
 
 	reg(Check{
@@ -201,10 +203,11 @@ func init() {
 			{Fn: "H_ordered_map", Params: k(4), Tier: "quick", Reach: []string{"end"}, NativeRepeat: 300},
 			{Fn: "H_ordered_map", Params: k(5), Tier: "thorough", Reach: []string{"end"}, NativeRepeat: 300},
 			{Fn: "H_pairs", Fuel: 30_000_000, Tier: "quick", Reach: []string{"end"}},
+			{Fn: "H_include", Fuel: 30_000_000, Tier: "quick", Reach: []string{"end"}},
 		},
 		Rule:        rule + "; Go's map iteration order is the adversary and is made a symbolic choice: every range over a Go map with 2..3 entries executed inside origami code (up to 4 such ranges per path) takes its order from a fresh symbolic permutation, all orders are explored as sibling paths, and the output must equal the insertion-order run of the same template in the same path; OrderedMap Set/Delete histories against a slice model; all ordered pairs (A then B vs B alone) of the templates on fresh VMs in one engine process",
 		Assumptions: []string{"maps with more than 3 entries and the 5th and later permutable ranges of a path iterate in insertion order"},
-		Outside:     []string{"byte-identical diagnostics / exit status across fresh OS processes", "std/php output buffers and spl registries (not loaded)", "programs outside the 10 templates"},
+		Outside:     []string{"byte-identical diagnostics / exit status across fresh OS processes", "std/php output buffers and spl registries (not loaded)", "programs outside the 17 templates (H_pairs: every ordered pair, the reference run of B is a copy with all class / interface / function names renamed, so nothing remembered per name can mask a leak; H_include: two programs including the same file under the 4 include forms, the first optionally mutating what it got)"},
 	})
 
 	c09 := func(fn string, p map[string]int, tier string, pre int) RunDef {
